@@ -117,6 +117,13 @@ def run(ctx, rep):
         pair(rep, "WeightedQuadratic(int)=replicated rows:global", wk.get_global_lipschitz(X, y), qr.get_global_lipschitz(Xr, yr), inp, tol=1e-9)
         # Efron = Breslow without ties
         tm = np.array(rng.sample(range(1, 40), n), dtype=float)
+        scale = rng.choice(["unit", "unit", "timestamps", "close", "days"])
+        if scale == "timestamps":          # distinct occurrence times that are close in relative terms
+            tm = 1.7e9 + tm
+        elif scale == "close":
+            tm = 1.0 + tm * 1e-6
+        elif scale == "days":
+            tm = 7.3e5 + tm
         s_ = np.array([float(rng.random() < 0.7) for _ in range(n)])
         s_[0] = 1.0
         yc = np.column_stack([tm, s_])
@@ -124,6 +131,7 @@ def run(ctx, rep):
         ce.initialize(X, yc)
         cb.initialize(X, yc)
         us = 0.3 * u
+        inp = dict(inp, tm=tm.tolist(), s=s_.tolist())
         pair(rep, "Cox(Efron, no ties)=Breslow:value", ce.value(yc, w, us), cb.value(yc, w, us), inp)
         pair(rep, "Cox(Efron, no ties)=Breslow:raw_grad", ce.raw_grad(yc, us), cb.raw_grad(yc, us), inp)
         pair(rep, "Cox(Efron, no ties)=Breslow:raw_hessian", ce.raw_hessian(yc, us), cb.raw_hessian(yc, us), inp)
